@@ -208,7 +208,7 @@ def body(chk: check.Check):
                 agg.add(m['key'], dict(scenario=sc.label, initial=h['pre'][:12], **m), facts(m['key'], m))
             traces.append(fio.encode_trace(len(all_traces) + len(traces), val['trace']))
             if control_hist is None and sc.label == 'reports+holes' and not val['mismatches'] and h['pre'] \
-                    and h['steps'][0]['op']['k'] == 'write' and h['steps'][0]['op']['a'] == 'html':
+                    and h['steps'][0]['op']['k'] == 'write' and h['steps'][0]['op']['a'] == 'html' and '~' in h['steps'][0]['new'][0]:
                 control_hist = (h, sc, traces[-1])
         mid = hists[len(hists) // 2]
         chk.sample(dict(files_scenario=sc.label, initial_directory=mid['pre'][:8],
@@ -218,6 +218,7 @@ def body(chk: check.Check):
         # judge the traces of this scenario while the next one is replayed
         vjobs.append((sc, traces, pool.submit(fio.validate, traces, sc.slices, max(sc.max_index, 16))))
     # ------------------------------------------------------------------ results: replay
+    tm['files_replay'] = round(time.time() - t_, 1)
     t_ = time.time()
     res = rjob.result()
     chk.add_tlc(f'ResultsIO on {rfamily} x {rstale}', res)
@@ -297,12 +298,14 @@ def body(chk: check.Check):
     chk.replayed += 1
     if st != 'ok':
         agg.add('parameters:BIOGEME() in a directory without biogeme.toml:raises ' + (val[0] if st == 'exc' else st),
-                dict(error=val), dict(area='parameters', kind='exception', exception=val[0] if st == 'exc' else st, step='biogeme'))
+                dict(error=val), dict(area='parameters', kind='exception', exception=val[0] if st == 'exc' else st, step='biogeme',
+                     message=val[2][:60] if st == 'exc' else ''))
     else:
         chk.count(('par', 'BIOGEME()'), val['n'])
         for m in val['mismatches']:
             agg.add(m['key'], m, facts(m['key'], m))
     tm['parameters'] = round(time.time() - t_, 1)
+    t_ = time.time()
 
     for sc, traces, fut in vjobs:
         verdicts, vres = fut.result()
@@ -317,7 +320,7 @@ def body(chk: check.Check):
                 agg.add(f'files:trace rejected:{clause}', dict(scenario=sc.label, verdict=v, steps=[s['op'] for s in t['steps']],
                                                                 failing_step=t['steps'][int(v.split(':')[0]) - 1]),
                         dict(area='files', kind='trace', clause=clause))
-    tm['files'] = round(time.time() - t_, 1)
+    tm['trace_validation_wait'] = round(time.time() - t_, 1)
     chk.extra['wall_by_part_s'] = tm
 
     # ------------------------------------------------------------------ recycle: which pickle is read (observation, not part of C14)
@@ -386,10 +389,9 @@ def body(chk: check.Check):
     if control_par is None:
         raise tlc.MachineryError('no history for the negative control of Parameters')
     prow = control_par
-    flip = dict(steps=[dict(k='set', p='Output/generate_html', v='b:False', outcome='ok'), dict(k='dump', p='', v='', outcome='ok'),
-                       dict(k='new', p='', v='', outcome='ok'), dict(k='read', p='', v='', outcome='ok')],
-                obj=[['Output/generate_html', 'b:False']], failed=False,
-                file=dict(ex=True, alien=False, focus=[['Output/generate_html', 's:False']]))
+    # (the file is written by the driver, so the control does not depend on dump_file working)
+    flip = dict(steps=[dict(k='read', p='', v='', outcome='ok')], obj=[['Output/generate_html', 'b:True']], failed=False,
+                file=dict(ex=True, alien=False, focus=[['Output/generate_html', 's:True']]), prewrite=True)
     st0, val0 = rt.forked(pio.replay, dict(hist=flip, rows=prow))
     st1, val1 = rt.forked(pio.replay, dict(hist=flip, rows=prow, tamper='flip_bool'))
     k0 = {m['key'] for m in val0['mismatches']} if st0 == 'ok' else {st0}
